@@ -346,7 +346,10 @@ pub(crate) fn add_int_multinom<W, R, T>(
             let a0 = xraise!(eval(&args[0], ns, &rt)?);
             let Some(s) = to_native!(a0, XSequence::<W, R, T>).diter(ns, rt.clone()) else { return xerr(ManagedXError::new("sequence is infinite", rt)?); };
 
+            // the terms are collected natively: that is a search like the multiplications below
+            let mut search =  rt.limits.search_iter();
             let mut s = xraise!(s.map(|v|->XResult<LazyBigint, W, R, T>{
+                search.next().unwrap()?;
                 Ok(Ok(to_primitive!(forward_err!(v?), Int).clone()))
             }).collect::<XResult<Vec<_>, W, R, T>>()?);
             if s.len() <= 1{
@@ -359,7 +362,6 @@ pub(crate) fn add_int_multinom<W, R, T>(
             let mut num_ctr = s[0].clone() + LazyBigint::one();
             let mut num = LazyBigint::one();
             let mut denum = LazyBigint::one();
-            let mut search =  rt.limits.search_iter();
             for item in s.into_iter().skip(1).take_while(|i| i.is_positive()){
                 for i in item.range(){
                     search.next().unwrap()?;
